@@ -40,6 +40,8 @@ Apply(st, undir, op, a, b, d) ==
     [] op = "find" -> {<< <<IF m = {} THEN 0 ELSE 1>>, st >>}
     [] op = "setdata" -> IF m = {} THEN {<< <<0>>, st >>}
                          ELSE {<< <<1>>, [st EXCEPT !.E = Ins3(RemAt(E, i), <<E[i][1], E[i][2], d>>)] >> : i \in m}
+    [] op = "incdata" -> IF m = {} THEN {<< <<0>>, st >>}
+                         ELSE {<< <<1, E[i][3] + 100>>, [st EXCEPT !.E = Ins3(RemAt(E, i), <<E[i][1], E[i][2], E[i][3] + 100>>)] >> : i \in m}
     [] op = "setnode" -> {<< <<1>>, st >>}
     [] OTHER -> {}
 
